@@ -1,2 +1,101 @@
 """Extra check stages (compile stage, native fuzzing). Each stage: f(ctx, base_env)."""
-STAGES = {}
+import glob, hashlib, json, os, re, subprocess, sys, time
+
+ROOT = os.path.dirname(os.path.dirname(os.path.abspath(__file__)))
+HARNESS = os.path.join(ROOT, "harness")
+
+
+def _imp():
+    import importlib
+    return importlib.import_module("__main__")
+
+
+def build_generator(ctx):
+    m = _imp()
+    genbin = os.path.join(ctx["work"].dir, "participle-gen")
+    if os.path.exists(genbin):
+        return genbin
+    rc, out = m.run(["go", "build", "-o", genbin, "."], cwd="/repo/cmd/participle", timeout=900)
+    if rc != 0:
+        m.inconclusive("cannot build /repo/cmd/participle (the lexer generator)", out)
+    return genbin
+
+
+def save_case(pid, case, message):
+    data = json.dumps({"property": pid, "message": message, "sig": "", "case": case}, indent=1).encode()
+    d = os.path.join(ROOT, "replays", pid)
+    os.makedirs(d, exist_ok=True)
+    path = os.path.join(d, "v-%s.json" % hashlib.sha256(json.dumps(case, sort_keys=True).encode()).hexdigest()[:12])
+    with open(path, "wb") as f:
+        f.write(data + b"\n")
+    return path
+
+
+def c05_pipeline(ctx, base_env, tag, extra_env):
+    """emit -> compile -> run one batch; returns nothing, appends to ctx lists."""
+    m = _imp()
+    pid, work = ctx["pid"], ctx["work"]
+    genbin = build_generator(ctx)
+    pkgdir = os.path.join(work.dir, "c05pkg")
+    if os.path.isdir(pkgdir):
+        import shutil
+        shutil.rmtree(pkgdir)
+    env = dict(base_env, VERIF_GENBIN=genbin, VERIF_SHARD=tag)
+    env.update(extra_env)
+    rc, out = m.run_binary(ctx["binary"], "TestC05Emit", env, [], timeout=1800)
+    if rc != 0 or "EMITTED" not in out:
+        ctx["inconcl"].append("C05 emit stage failed")
+        m.log(out[-3000:])
+        return
+    if "EMITTED 0 definitions" in out:
+        return
+    testbin = os.path.join(work.dir, "c05-%s.test" % tag)
+    rel = "./" + os.path.relpath(pkgdir, HARNESS)
+    rc, out = m.run(["go", "test", "-c", "-o", testbin, rel], cwd=HARNESS, timeout=1800)
+    if rc != 0:
+        # "the emitted source compiles": attribute the compile error to the definition(s) named in the messages
+        ids = sorted(set(int(x) for x in re.findall(r"g(\d+)_gen\.go", out)))
+        try:
+            defs = {d["id"]: d for d in json.load(open(os.path.join(pkgdir, "cases.json")))}
+        except Exception:
+            defs = {}
+        if ids and ids[0] in defs:
+            d = defs[ids[0]]
+            msg = "the Go source emitted by the lexer generator does not compile:\n" + "\n".join(
+                l for l in out.splitlines() if "g%d_gen.go" % ids[0] in l)[:1500]
+            path = save_case(pid, {"rules": d["rules"], "input_hex": ""}, msg)
+            m.log("  detail: " + msg.replace("\n", "\n  "))
+            ctx["violations"].append("VIOLATION property=%s replay=%s" % (pid, path))
+        else:
+            ctx["inconcl"].append("emitted package does not compile (not attributable to a generated file)")
+            m.log(out[-3000:])
+        return
+    pf = os.path.join(work.dir, "c05-%s.json" % tag)
+    env = dict(m.GOENV)
+    env.update(base_env)
+    env.update({"VERIF_OUT": pf, "VERIF_SHARD": tag})
+    rc, out = m.run([testbin, "-test.run", "^TestRun$", "-test.timeout", "0", "-test.v"], env=env, cwd=pkgdir,
+                    timeout=ctx["tconf"].get("timeout", 1800))
+    v, k, notes = m.parse_verdict_lines(out)
+    m.handle_output(pid, rc, out, v, k, notes, ctx["violations"], ctx["known_lines"], ctx["inconcl"], "C05 batch " + tag)
+    if os.path.exists(pf):
+        ctx["partials"].append(pf)
+
+
+def stage_c05(ctx, base_env):
+    tconf = ctx["tconf"]
+    if ctx.get("replay_file"):
+        c05_pipeline(ctx, base_env, "replay", {"VERIF_C05_REPLAY": ctx["replay_file"]})
+        return
+    rdir = os.path.join(ROOT, "replays", ctx["pid"])
+    if glob.glob(os.path.join(rdir, "*.json")):
+        c05_pipeline(ctx, base_env, "replay", {"VERIF_C05_REPLAY": rdir})
+    for b in range(tconf.get("batches", 1)):
+        if ctx["violations"]:
+            break
+        env = {"VERIF_C05_DEFS": str(tconf.get("defs", 40)), "VERIF_C05_INPUTS": str(tconf.get("inputs", 150)),
+               "VERIF_SEED": str(ctx["seed"] * 100 + b)}
+        c05_pipeline(ctx, base_env, "b%d" % b, env)
+
+
+STAGES = {"c05": stage_c05}
